@@ -316,16 +316,17 @@ func verifHarness_C01_step() {
 	verifPermute(verifParam("permute", 1))
 	b := vDoStep()
 	verifPermute(0)
+	st := a
 	if a.reply == nil || b.reply == nil {
-		verifAssert(a.reply == nil && b.reply == nil, "both-executions-complete")
+		vA(st, a.reply == nil && b.reply == nil, "both-executions-complete")
 		return
 	}
-	verifAssert(len(a.reply.Messages) == len(b.reply.Messages), "same-number-of-replies")
+	vA(st, len(a.reply.Messages) == len(b.reply.Messages), "same-number-of-replies")
 	for k := 0; k < len(a.reply.Messages) && k < len(b.reply.Messages); k++ {
 		x, y := a.reply.Messages[k], b.reply.Messages[k]
-		verifAssert(x.Id == y.Id, "same-reply-ids")
-		verifAssert(x.Data == y.Data, "same-reply-bytes-in-the-same-order")
-		verifAssert(verifDeepEq(x.InterestingFor, y.InterestingFor, "nileqempty"), "same-recipients")
+		vA(st, x.Id == y.Id, "same-reply-ids")
+		vA(st, x.Data == y.Data, "same-reply-bytes-in-the-same-order")
+		vA(st, verifDeepEq(x.InterestingFor, y.InterestingFor, "nileqempty"), "same-recipients")
 	}
-	verifAssert(verifDeepEq(a.t.i, b.t.i, "skip=IRCServer.ServerCreation;nileqempty"), "same-resulting-state")
+	vA(st, verifDeepEq(a.t.i, b.t.i, "skip=IRCServer.ServerCreation;nileqempty"), "same-resulting-state")
 }
